@@ -129,7 +129,18 @@ def run(tier, seed):
             if f not in seen:
                 seen.add(f)
                 formulas.append(f)
-    peg_cases = []
+    peg_cases, memo_cases = [], []
+    from excel2pycl.src.tokens.composite_base_token import CompositeBaseToken
+    get_calls = [0]
+    counted_hook = hasattr(CompositeBaseToken, '_get') and hasattr(CompositeBaseToken, '_MEMO')
+    nclasses = len(gramgen.tables()['rules'])
+    if counted_hook:
+        orig_get = CompositeBaseToken._get.__func__
+
+        def counted_get(cls, *a, **k):
+            get_calls[0] += 1
+            return orig_get(cls, *a, **k)
+        setattr(CompositeBaseToken, '_get', classmethod(counted_get))
     for f in formulas:
         sheets = sheet_with(f)
         t0 = time.time()
@@ -157,10 +168,21 @@ def run(tier, seed):
                 if ev.startswith('E') and ev[1:] in BROKEN_AT_EVAL:
                     chk.violation({'why': 'a translated member refers to something that does not exist / is not valid code', 'formula': f, 'impl': ev, 'stream': 'evaluable'})
         # (7) the Lean interpreter with the proved depth bound
+        get_calls[0] = 0
         pout, classes, _ = c05.real_parse(f)
         if classes is not None and not pout.startswith('E'):
             peg_cases.append(('pg %d EntryPointToken %s' % (6 * len(classes) + 6, ' '.join(classes)), pout, {'formula': f}))
+            if counted_hook:
+                # (8) the MEMOISED interpreter (Model/PegMemo.lean): the same outcome and exactly as many executions of `_get` as the real parser made
+                memo_cases.append(('pm %d EntryPointToken %s' % (6 * len(classes) + 6, ' '.join(classes)), '%s #%d' % (pout, get_calls[0]), {'formula': f}))
+                chk.count('memo:get-calls', get_calls[0])
+                if get_calls[0] > nclasses * (len(classes) + 1):
+                    chk.violation({'why': 'the parser executed `_get` more often than there are (class, position) pairs: the memo table does not hold', 'formula': f[:300],
+                                   'get_calls': get_calls[0], 'bound': nclasses * (len(classes) + 1), 'stream': 'parse-steps'})
+    if counted_hook:
+        setattr(CompositeBaseToken, '_get', classmethod(orig_get))
     chk.judge('parse-with-proved-depth', peg_cases, sample_cap=3)
+    chk.judge('memoised-parse-and-get-calls', memo_cases, sample_cap=3)
     for c in chk.mismatches:
         pass
     titles_constants(chk, rng)
@@ -189,6 +211,14 @@ def deep_cases(tier):
         'args': lambda d: '=SUM(' + ','.join(['1'] * d) + ')',
         'concat-args': lambda d: '=CONCATENATE(' + ','.join(['"a"'] * d) + ')',
         'unclosed': lambda d: '=' + '(' * d + '1',
+        # the same depth INSIDE an argument (arguments of most functions become members of their own)
+        'concat-chain-in-sum': lambda d: '=SUM(' + '&'.join(['"a"'] * d) + ')',
+        'sum-chain-in-max': lambda d: '=MAX(1,' + '+'.join(['1'] * d) + ')',
+        'brackets-in-if': lambda d: '=IF(A1>0,' + '(' * d + '1' + ')' * d + ',2)',
+        'mixed-chain-in-ifs': lambda d: '=IFS(A1>0,' + ''.join('%d%s' % (i % 7 + 1, '+-*/&<'[i % 6]) for i in range(d)) + '1)',
+        'compare-chain-in-countifs': lambda d: '=COUNTIFS(A1:A2,' + '='.join(['1'] * d) + ')',
+        'ref-chain-in-index': lambda d: '=INDEX(A1:B2,' + '-'.join(['A1'] * d) + ',1)',
+        'concat-chain-in-iferror': lambda d: '=IFERROR(LEFT(' + '&'.join(['"a"'] * d) + ',2),"x")',
     }
     cases = [(name, d, mk(d)) for name, mk in shapes.items() for d in sizes]
     literals = ['=0e999999999', '=0e' + '9' * 5000, '=1e999999999', '=1e-999999999', '=0.0e999999999', '=' + '1' * 310, '=' + '1' * 4300, '=' + '1' * 4301, '=' + '1' * 5000,
